@@ -4,6 +4,7 @@ import (
 	"encoding/json"
 	"fmt"
 	"reflect"
+	"regexp"
 	"strings"
 	"testing"
 
@@ -33,6 +34,8 @@ type c11Node struct {
 
 // c11WalkRef is the walk rule written from the statement: the value itself, then objects embedded by pointer in the walked
 // properties (for an activity also object, actor and target), recursively and through lists.
+var c11NilToNil = regexp.MustCompile(`: \(\*\w+\)nil became nil$`)
+
 func c11WalkRef(it ap.Item, path string, depth int, out *[]c11Node) {
 	if it == nil {
 		return
@@ -181,7 +184,15 @@ func c11Check(x ap.Item) (ds []keyed, plantedDeep int, jsonChecked bool) {
 				}
 			}
 		}
-		if d := vocab.ContentDiff(snap, after); len(d) > 0 {
+		d := vocab.ContentDiff(snap, after)
+		// a nil pointer that became the nil item is nothing that became nothing (Clean() stores what CleanRecipients returns)
+		kept := d[:0]
+		for _, line := range d {
+			if !c11NilToNil.MatchString(line) {
+				kept = append(kept, line)
+			}
+		}
+		if d = kept; len(d) > 0 {
 			ds = append(ds, keyed{"clean " + gt + " other-property-changed", "Clean() changed something besides bto/bcc along the walk: " + strings.Join(d, "; ")})
 		}
 	}
@@ -211,7 +222,7 @@ func TestC11(t *testing.T) {
 	r := ev.Open(t, "C11")
 	defer r.Close(t)
 	r.Rule("positions: every type implementing Clean() x every walked position (audience, attachment, icon, image, context, generator, attributedTo, preview, tag; object, actor, target for activities) " +
-		"and 18 off-walk decoy positions x {single embedded object, list} x embedded type {Object, Actor, Activity, Question, Collection, Place} x nesting depth 1..2 (at depth 1 also with the embedded value carrying its owner's id, and no id), with bto/bcc planted at every level; " +
+		"and 18 off-walk decoy positions x {single embedded object, list} x embedded type {Object, Actor, Activity, Question, Collection, Place} x nesting depth 1..2 (at depth 1 also with the embedded value carrying its owner's id, no id, and sitting in a list between nil pointers and nil entries), with bto/bcc planted at every level; " +
 		"random: random values with bto/bcc planted on ~60% of all struct nodes anywhere. Oracle: reference walk from the statement - along it bto/bcc are empty on the Go value and absent from the parsed " +
 		"MarshalJSON output; with bto/bcc along the walk normalised, the value is bit-identical to its snapshot (decoys keep their private recipients). " +
 		"non-trivial = private recipients planted at depth >= 1 on the walk; distinct by canonical dump")
@@ -261,7 +272,7 @@ func TestC11(t *testing.T) {
 			for _, pos := range positions {
 				for _, asList := range []bool{false, true} {
 					for _, et := range embedTypes {
-						for depth := 1; depth <= 4; depth++ {
+						for depth := 1; depth <= 5; depth++ {
 							// depth 3 and 4 are depth 1 again with another identity of the embedded value: the id of the value that embeds it (a copy
 							// of the owner inside the owner, e.g. an actor attributed to itself), and no id at all
 							policy := ""
@@ -269,7 +280,10 @@ func TestC11(t *testing.T) {
 								if et != "Object" && et != "Actor" {
 									continue
 								}
-								policy = []string{"owner-id", "no-id"}[depth-3]
+								policy = []string{"owner-id", "no-id", "behind-nils"}[depth-3]
+								if policy == "behind-nils" && !asList {
+									continue
+								}
 							}
 							c := &vocab.Counter{}
 							top, tv := mkNode(c, gt)
@@ -282,6 +296,17 @@ func TestC11(t *testing.T) {
 							}
 							if !setPos(tv, pos, inner, asList) {
 								continue
+							}
+							if policy == "behind-nils" {
+								// the embedded value sits in a list behind a nil pointer and a nil entry: nothing to clean there, and no reason to stop
+								f := tv.FieldByName(pos)
+								l := ap.ItemCollection{(*ap.Actor)(nil), nil, inner, (*ap.Object)(nil)}
+								if f.Kind() == reflect.Slice {
+									f.Set(reflect.ValueOf(l))
+								} else {
+									var li ap.Item = l
+									f.Set(reflect.ValueOf(&li).Elem())
+								}
 							}
 							if depth == 2 {
 								deep, _ := mkNode(c, "Object")
